@@ -35,6 +35,14 @@ RelClosed == phase = "d" => \A c \in 0..3 : Rel(d, n, o, c) \in Configs16
 \* sub-triangles of its parent's triangle -- the PATTERN shifts move children into neighbouring positions -- so
 \* bijectivity at depth n+1 does not follow from depth n by simple nesting; it is checked depth by depth.
 
+\* transducer view: every configuration that ANY local state can produce is one of the sixteen
+LocalClosed == phase = "start" => LocalRelSet \subseteq Configs16
+\* (a) the configuration of every explored parent/child pair is the one its local state predicts
+Locality == phase = "d" =>
+  \A c \in 0..3 : LET st == LocalStateOf(d, n, o)
+                   IN LocalRel(st.fl, st.pk, IF st.rev THEN 3 - c ELSE c, o) = Rel(d, n, o, c)
+ShowLocal == phase = "start" => PrintT(<<"LOCAL", Cardinality(LocalRelSet), LocalRelSet \ Configs16>>)
+
 RelSetAt(m) == {Rel(x, m, oo, c) : x \in [0..m - 1 -> 0..3], oo \in Orientations, c \in 0..3}
 RelSaturated == phase = "start" => RelSetAt(2) = Configs16 /\ RelSetAt(3) = Configs16 /\ Cardinality(Configs16) = 16
 \* the children of a tile are a function of the tile type alone: four placements per type
